@@ -26,7 +26,7 @@ t('ber defMode=False', lambda: be.encode(v, defMode=False).hex())
 t('cer', lambda: ce.encode(v).hex())
 t('decode(ber indef) remainder', lambda: bd.decode(be.encode(v, defMode=False), asn1Spec=v)[1])
 
-print('--- A7.unit (C01 C02): chunks are slices of characters, measured in octets')
+print('--- A7.unit (C01 C02): REPAIRED in /repo (9f85bcf): chunks were slices of characters, measured in octets')
 sys.setrecursionlimit(200)
 t('cer.encode(UTF8String(e-acute * 1001))', lambda: len(ce.encode(char.UTF8String(chr(233) * 1001))))
 t('ber.encode(UTF8String(e-acute * 5), maxChunkSize=4)', lambda: be.encode(char.UTF8String(chr(233) * 5), maxChunkSize=4).hex())
